@@ -9,7 +9,13 @@ EXTRACTION_DROPS = [
 
 UNITS = {
     "time_locks": {"template": "contracts/time_locks.vrs", "rlimit": 30},
+    "int_encoders": {"template": "contracts/int_encoders.vrs", "rlimit": 30},
 }
+
+
+def K(name, harnesses, complete, bound, tier="quick", function=None, zflags=None, timeout=1800):
+    return {"kind": "kani", "name": name, "harnesses": harnesses, "complete": complete, "bound": bound,
+            "tier": tier, "function": function, "zflags": zflags or [], "timeout": timeout}
 
 
 def V(unit, tier="quick"):
@@ -38,6 +44,27 @@ PROPS = {
         ],
         "not_covered": [],
     },
+}
+
+PROPS["C11"] = {
+    "level": "proof",
+    "technique": "Verus contracts on the real encoders/decoders extracted verbatim (Coin::coin_id, u64_to_bytes, clvm_bytes_len, sanitize_uint, clvmr u64_from_bytes) against one spec canon(v); Kani complete proofs over all u64/i64 on the compiled crates",
+    "level_text": "Deductive proof: every u64 ladder in the repository equals canon(v) (minimal big-endian two's complement), sanitize_uint classifies every atom exactly as the rule says and accepts only canon(v); canon is injective and decodes back to v. Kani proves u64_to_bytes and clvm-traits encode/decode over all 2^64 inputs on the compiled code.",
+    "level_note": "Assumed: to_be_bytes / slicing / Vec::extend shims (each cross-checked by the Kani harnesses on unrewritten code), Sha256 as a byte accumulator over an uninterpreted sha256, clvmr Allocator accessor contracts. encode_number/decode_number are decided by Kani for 64-bit widths (complete), wider widths not covered.",
+    "components": [
+        V("int_encoders"),
+        K("kani_int_encoders", ["u64_to_bytes_is_canon", "encode_number_u64_is_canon", "decode_encode_u64_roundtrip", "decode_encode_i64_roundtrip"],
+          True, "complete: all 2^64 inputs, loops bounded by operand width (unwind 11, unwinding assertions on)"),
+    ],
+    "assumptions": [
+        "shim contracts: u64::to_be_bytes == be8, array/slice range indexing == subrange, Vec::extend == concatenation",
+        "Sha256 ghost model: update appends, finalize == sha256(absorbed), sha256 uninterpreted",
+        "clvmr::Allocator accessor contracts (sexp/atom) over an abstract immutable tree",
+    ],
+    "not_covered": [
+        "clvm-traits ToClvm/FromClvm integer impls for widths other than 64 bits (macro-generated; route through encode_number/decode_number, which Kani proves at 64 bits only)",
+        "Allocator::new_number (the interpreter's own encoder) is in the assumed shim",
+    ],
 }
 
 for _p in PROPS:
